@@ -961,11 +961,11 @@ func isStringConst(k *ssa.Const) bool {
 // ---------------------------------------------------------------- X1 (parser domain)
 
 type parseSite struct {
-	fn     string // ParseInt | ParseUint
-	base   int64
-	bits   int64
-	pos    token.Pos
-	via    string
+	fn   string // ParseInt | ParseUint
+	base int64
+	bits int64
+	pos  token.Pos
+	via  string
 }
 
 // reachableParses lists strconv.Parse(U)int calls reachable from fn through ttlv helpers, resolving a
@@ -1027,9 +1027,9 @@ func (c *lexCtx) x1ParserDomain() {
 	r, p := c.r, c.p
 	r.Rule("C18.X1d", "the text parsers accept every spelling the writers emit for the type: unsigned 32-bit kinds (Interval, Enumeration) are never parsed with a signed 32-bit parser, 64-bit hex never with a signed 64-bit parser", 8)
 	type kind struct {
-		method        string
-		unsigned      bool
-		width         int64
+		method   string
+		unsigned bool
+		width    int64
 	}
 	kinds := []kind{{"Interval", true, 32}, {"Enum", true, 32}, {"Integer", false, 32}, {"LongInteger", false, 64}}
 	for _, recv := range []string{"xmlReader", "jsonReader"} {
